@@ -27,6 +27,32 @@ def run(ctx):
     # ---- T1
     n = t1_write_through(ctx, "T1-write-through", FW, "w", SAN)
     ctx.floor("T1 write sites of FreeWord.w", n, 2)
+    # ---- operations are total: a divisor that is a word length needs a non-zero guard (rotation of the empty word)
+    nd = 0
+    for d in sorted(ctx.facts.bodies):
+        if not d.startswith("fpgroups::free_words::") or "{closure" in d:
+            continue
+        b = ctx.facts.bodies[d]
+        sites = []
+        for bi, t in b.calls():
+            n_ = t["callee"].get("def", "")
+            if n_.endswith("::rem_euclid") or n_.endswith("::div_euclid") or n_.endswith("::checked_rem"):
+                sites.append((bi, norm(b.origin(t["args"][1]), ctx.facts.getters()), n_.split("::")[-1]))
+        for bi, blk in b.live_blocks():
+            t = blk["term"]
+            if t["k"] == "assert" and t["msg"]["k"] in ("DivisionByZero", "RemainderByZero"):
+                c = norm(b.origin(t["cond"]), ctx.facts.getters())
+                if c[0] == "binop" and c[1] == "Eq" and c[3] == ("int", 0):
+                    sites.append((bi, c[2], t["msg"]["k"]))
+        for bi, div, what in sites:
+            if not contains(div, lambda s: isinstance(s, tuple) and s and s[0] == "call" and s[1].endswith("::len")):
+                continue
+            nd += 1
+            ok = holds(b.facts_at(bi), ("rel", "Ne", div, ("int", 0)), ctx.facts.getters()) or holds(b.facts_at(bi), ("rel", "Lt", ("int", 0), div), ctx.facts.getters())
+            ctx.ob("T5-length-divisor-guarded", d, "%s by len()" % what, "ok" if ok else "violation",
+                   "the division by a word length is dominated by a non-zero test on that length" if ok else
+                   "a word length is used as divisor without a dominating non-zero test: the operation panics on the empty word instead of returning a (reduced) word", b.span_of(bi))
+    ctx.floor("divisions by a word length in free_words", nd, 1)
     # ---- normalized shape
     nb = ctx.body("fpgroups::free_words::normalized")
     check_normalized(ctx, nb)
